@@ -93,7 +93,7 @@ Proof.
 Qed.
 
 (* ---- layer 3: the composition.  D3 (boolean; Compose.d3_clause, Compose3.D3):
-     environment: the store compares predicate kinds (F6), literal.Parse rejects unknown types (F3), repairs F14, Foid, F24 in;
+     environment: the store compares predicate kinds (F6), literal.Parse rejects unknown types (F3), repairs F9, F14, Foid, F24 in;
      graphs hold no two triples with the same key (as the store guarantees);
      at least one clause, and every clause: not OPTIONAL, not fully specified, no interval `"id"@[lb,ub]` / bound alias, no ID alias
        on the object, a predicate / object id only together with an anchor binding, pairwise different binding names inside the
@@ -140,7 +140,11 @@ Theorem C03_add_specified_data_spec :
     d3_clause c = true -> ks e = true -> strlit_invalid e = false -> fix14 e = true -> fixoid e = true -> fixsb e = true ->
     forallb graph_nodup gs = true -> get mu [] = None -> row_equiv mu mu' ->
     exists rows, add_specified_data e gs glo c mu = Ok rows /\ Forall2 row_equiv rows (spec_extend c glo gs mu').
-Proof. intros e gs glo c mu mu' D. apply asd_spec. apply d3_clause_d3c. exact D. Qed.
+Proof.
+  intros e gs glo c mu mu' D Hks Hsl H14 Hoid Hsb Hg Hn Hm. destruct (d3_clause_d3c c D) as [Dc Hopt].
+  destruct (asd_spec e gs glo c mu mu' Dc Hks Hsl H14 Hoid Hsb Hg Hn Hm) as [rows [E F]]. exists rows. split; [exact E|].
+  unfold spec_one in F. rewrite Hopt in F. destruct (spec_extend c glo gs mu'); exact F.
+Qed.
 Print Assumptions C03_add_specified_data_spec.
 
 (* D3 is inhabited by a non-trivial case: a two-clause join with an anchor binding and a TYPE extraction over a graph with a
